@@ -15,7 +15,7 @@ if "--checks" in args:
     del args[i:i + 2]
 seeds = sorted(p.name for p in (V / "seeded").iterdir() if (p / "patch.diff").exists())
 if args:
-    seeds = [s for s in seeds if s in args]
+    seeds = [s for s in seeds if s in args or s.split('-')[0] in args]
 
 
 def one(s: str):
